@@ -213,7 +213,7 @@ def install():
         if len(sel) != len(arr.shape) or not all(isinstance(x, slice) for x in sel):
             return None
         try:
-            cs = list(arr.chunks)
+            cs = list(getattr(arr, "shards", None) or arr.chunks)   # the unit of a store key is the shard, if any
             bounds = [[] for _ in cs]
         except NotImplementedError:
             sizes = arr.read_chunk_sizes
